@@ -4,3 +4,4 @@ pub mod s_merkle;
 pub mod refcodec;
 pub mod s_wire;
 pub mod s_signer;
+pub mod s_envelope;
